@@ -1061,6 +1061,51 @@ func main() {
 		rep.Consts = append(rep.Consts, "rb_shape")
 	}
 
+	// the constructors: uint(float32(size) * <fraction>) in NewTinyLfu (window) and NewSlru (protected)
+	{
+		frac := func(fn string) (string, string, bool) {
+			fd := findFunc(internal, fn)
+			if fd == nil || fd.Body == nil {
+				return "", "", false
+			}
+			var num, den string
+			found := false
+			ast.Inspect(fd.Body, func(m ast.Node) bool {
+				call, ok := m.(*ast.CallExpr)
+				if !ok || found || exprString(call.Fun) != "uint" || len(call.Args) != 1 {
+					return true
+				}
+				be, ok := call.Args[0].(*ast.BinaryExpr)
+				if !ok || be.Op != token.MUL {
+					return true
+				}
+				conv, ok := be.X.(*ast.CallExpr)
+				if !ok || exprString(conv.Fun) != "float32" || len(conv.Args) != 1 || exprString(conv.Args[0]) != "size" {
+					return true
+				}
+				if v, ok := evalConst(be.Y, consts); ok {
+					if n, d, ok := ratOf(v); ok {
+						num, den, found = n, d, true
+					}
+				}
+				return true
+			})
+			return num, den, found
+		}
+		if n, d, ok := frac("NewTinyLfu"); ok {
+			fmt.Fprintf(&cb, "(* tlfu.go NewTinyLfu: windowSize := uint(float32(size) * this) *)\nDefinition c_init_window_fraction : Z * Z := (%s, %s).\n", n, d)
+			rep.Consts = append(rep.Consts, "init_window_fraction")
+		} else {
+			fail("NewTinyLfu: window fraction not recognised")
+		}
+		if n, d, ok := frac("NewSlru"); ok {
+			fmt.Fprintf(&cb, "(* slru.go NewSlru: protected capacity := uint(float32(size) * this) *)\nDefinition c_init_protected_fraction : Z * Z := (%s, %s).\n", n, d)
+			rep.Consts = append(rep.Consts, "init_protected_fraction")
+		} else {
+			fail("NewSlru: protected fraction not recognised")
+		}
+	}
+
 	// tlfu.go, climb(): the test that re-energises the hill climber - on the absolute value of the change? against which threshold?
 	if fd := findFunc(internal, "climb"); fd != nil && fd.Body != nil {
 		found := false
